@@ -423,6 +423,54 @@ def _store(aligned):
     return build
 
 
+def _gs_args(ctx):
+    mem = [a for a in ctx.args if a.kind == "P"][0]
+    idx = ctx.args[-1]
+    if mem.tid != ctx.tid or getattr(mem, "is_bool", False):
+        raise Unsupported("converting gather / scatter")
+    if TYPES[idx.tid][3] == "f" or TYPES[idx.tid][2] != ctx.w:
+        raise Unsupported("index batch of a different width")
+    signed = TYPES[idx.tid][3] == "s"
+    # number of addressable elements: the whole range of an 8-bit index; a window of 8 elements for wider index types
+    K = (128 if signed else 256) if ctx.w == 8 else 8
+    ctx.mem_bytes = {mem.cname: K * ctx.w // 8}
+    for i in range(ctx.n):
+        if not (ctx.w == 8 and not signed):
+            ctx.requires.append("%s < %d" % (idx.lane_pre(i), K))      # (a negative signed index is >= 2^(w-1) as a bit pattern)
+    return mem, idx, K
+
+
+def _elem_at(mem, ctx, e):
+    x = "%s[%s]" % (mem.scalar, e)
+    return "F2U%d(%s)" % (ctx.w, x) if ctx.isfloat else "((%s)%s)" % (UW[ctx.w], x)
+
+
+@row("gather", ("BPB", "PB"), "B", prop="C04")
+def _gather(ctx):
+    """lane i = src[index[i]]: exactly the indexed elements are read (the object holds the addressable elements and nothing more)"""
+    R = ctx.ret = bind_ret(ctx, "B")
+    mem, idx, K = _gs_args(ctx)
+    ctx.requires.append("__CPROVER_r_ok(%s, %d)" % (mem.scalar, K * ctx.w // 8))
+    ctx.ensures += conj(["(%s == %s)" % (R.lane(i), _elem_at(mem, ctx, idx.lane(i))) for i in range(ctx.n)], 4)
+
+
+@row("scatter", "BPB", "V", prop="C04")
+def _scatter(ctx):
+    """dst[index[i]] = lane i in lane order (the highest lane wins among equal indices); every other element keeps its value"""
+    src = ctx.args[0]
+    mem, idx, K = _gs_args(ctx)
+    nb = K * ctx.w // 8
+    ctx.requires.append("__CPROVER_w_ok(%s, %d)" % (mem.scalar, nb))
+    ens = []
+    for k in range(K):
+        e = mem.elem(k, old=True)
+        for i in range(ctx.n):
+            e = "(%s == %d ? %s : %s)" % (idx.lane(i), k, src.lane(i), e)
+        ens.append("(%s == %s)" % (mem.elem(k), e))
+    ctx.ensures += conj(ens, 2)
+    ctx.assigns.append("__CPROVER_object_upto(%s, %d)" % (mem.scalar, nb))
+
+
 row("load_aligned", "PM", "M", prop="C04")(_bool_load(True))
 row("load_unaligned", "PM", "M", prop="C04")(_bool_load(False))
 for _o in ("store", "store_aligned", "store_unaligned"):
